@@ -225,7 +225,8 @@ func (e *Engine) toPos(position token.Position) token.Pos {
 		// error on a file from a transitively imported package, we need to create a fake file in
 		// the file set.
 		// [gcexportdata]: https://pkg.go.dev/golang.org/x/tools/go/gcexportdata
-		file := e.pass.Fset.AddFile(position.Filename, e.pass.Fset.Base(), _fakeFileMaxLines)
+		// Every fake line is one byte long, so the file must be at least as large as the line number.
+		file := e.pass.Fset.AddFile(position.Filename, e.pass.Fset.Base(), max(_fakeFileMaxLines, position.Line))
 		// Set up fake lines for the fake file.
 		fakeLines := make([]int, position.Line)
 		for i := range fakeLines {
@@ -250,8 +251,16 @@ func (e *Engine) toPos(position token.Position) token.Pos {
 			}
 		}
 
+		// A fake file cannot be padded beyond its size (the importer creates them with a fixed
+		// size), and the position may not carry a line number at all. Report the closest line we
+		// have instead of panicking in such cases.
+		line := min(position.Line, info.file.LineCount())
+		if line < 1 {
+			return info.file.Pos(0)
+		}
+
 		// For fake files, we can only report accurate line number but not column number.
-		return info.file.LineStart(position.Line)
+		return info.file.LineStart(line)
 	}
 
 	// For non-fake files, the position is accurate.
